@@ -81,6 +81,8 @@ def run(rep, tier):
     install_module_rule(rep)
     # late binding at the leaf: Ref skeleton callee
     late_binding(rep)
+    from .. import controls
+    controls.route_controls(rep)
 
 
 def late_binding(rep):
